@@ -73,7 +73,7 @@ def static_spaces(tier):
     """-> list of (space name, [hierarchies], descriptor-set fn, lo, hi, distinct, shapes)"""
     sp = []
     H = lambda lo, hi: [Hierarchy.get(a) for n in range(lo, hi + 1) for a in posets(n)]  # noqa
-    FL = [FlavouredHierarchy.get(f) for f in ("abc", "proto", "both", "twins")]
+    FL = [FlavouredHierarchy.get(f) for f in ("abc", "proto", "both", "twins", "abc-sub")]
     sp.append(("f1:flavoured(ABC+virtual subclass, protocol, twin protocols),1pos,L<=3,prio", FL, ["x"], (0, 1), 1, 3, False))
     sp.append(("f2:flavoured,2pos,L<=2", FL, ["xy"], (0,), 1, 2, False))
     if tier == "quick":
